@@ -134,9 +134,10 @@ def body_exp(name, body, names):
     m = re.fullmatch(r"(\w+) = &" + CALL + r"; return &(\w+);", b)
     if m:
         return "BChain %s %s %s %s %s" % (q(m.group(1)), q(m.group(2)), q(m.group(3)), args_exp(m.group(4), names), q(m.group(5)))
-    m = re.fullmatch(r"currentMockSupport = &mock\((.*), &failureReporterForC\); return &gMockSupport;", b)
-    if m:
-        return "BSelect (%s)" % arg_exp(m.group(1), names)
+    m = re.fullmatch(r"currentMockSupport = &mock\((.*)\); return &gMockSupport;", b)
+    if m and len(split_top(m.group(1))) == 2:
+        sc, rep = split_top(m.group(1))
+        return "BSelect (%s) %s" % (arg_exp(sc, names), q(re.sub(r"\s+", "", rep)))
     m = re.fullmatch(CALL + r";", b)
     if m and ";" not in m.group(3):
         return "BVoid %s %s %s" % (q(m.group(1)), q(m.group(2)), args_exp(m.group(3), names))
@@ -164,6 +165,84 @@ def body_exp(name, body, names):
              "currentMockSupport->removeAllComparatorsAndCopiers();"):
         return "BRemoveAll"
     return "BOther " + q(b)
+
+
+def squash(t):
+    t = re.sub(r"/\*.*?\*/", " ", t, flags=re.S)
+    t = re.sub(r"//[^\n]*", " ", t)
+    return re.sub(r"\s+", " ", t).strip()
+
+
+def reporter_facts(h, csrc):
+    """how a mock failure leaves the test: the two reporter classes (the C layer's and the C++ one) reduced to one shape -- failTest hands
+    the reporter's crashOnFailure_ to a terminator, the terminator runs UT_CRASH() iff that flag is set and then leaves the test through
+    <exit> -- with the class-specific names taken out (C.terminator / C.exit / X.terminator / X.exit); and what MockSupport does with its
+    activeReporter_ (who sets it, who reads it, what clear() does to it)."""
+    E = h.errors
+    rows = []
+
+    def body(text, pat, what):
+        m = re.search(pat, text, re.S)
+        if not m:
+            E.append("C19: %s not found" % what)
+            return "?"
+        return squash(m.group(1))
+
+    def shape(prefix, fail, leave):
+        m = re.search(r"failWith\(failure, (\w+)\(crashOnFailure_\)\)", fail)
+        term = m.group(1) if m else "?"
+        m2 = re.search(r"([\w:]+\(\))\.exitCurrentTest\(\);", leave)
+        ex = m2.group(1) if m2 else "?"
+        rows.append((prefix + ".failTest", fail.replace(term + "(", "TERMINATOR(") if m else fail))
+        rows.append((prefix + ".terminator", term))
+        rows.append((prefix + ".exitCurrentTest", leave.replace(ex, "EXIT") if m2 else leave))
+        rows.append((prefix + ".exit", ex))
+
+    # the C layer (src/CppUTestExt/MockSupport_c.cpp)
+    cls = re.search(r"class MockFailureReporterForInCOnlyCode\b(.*?)\n\};", csrc, re.S)
+    ctext = cls.group(0) if cls else ""
+    tcls = re.search(r"class MockFailureReporterTestTerminatorForInCOnlyCode\b(.*?)\n\};", csrc, re.S)
+    ttext = tcls.group(0) if tcls else ""
+    if not cls or not tcls:
+        E.append("C19: the C failure reporter / its terminator class not found")
+    shape("C", body(ctext, r"\bfailTest\s*\([^)]*\)\s*CPPUTEST_OVERRIDE\s*\{([^{}]*)\}", "C reporter failTest"),
+          body(ttext, r"\bexitCurrentTest\s*\(\s*\)\s*const\s*CPPUTEST_OVERRIDE\s*\{([^{}]*)\}", "C terminator exitCurrentTest"))
+    rows.append(("C.reporter", body(ctext, r"(class MockFailureReporterForInCOnlyCode[^{]*)\{", "C reporter class head")))
+    rows.append(("C.methods", " ".join(re.findall(r"\b(\w+)\s*\([^)]*\)\s*(?:const\s*)?CPPUTEST_OVERRIDE", ctext))))
+    rows.append(("C.terminator.flag", body(ttext, r"ForInCOnlyCode\s*\(\s*bool\s+crashOnFailure\s*\)\s*:\s*([^{]*)\{", "C terminator constructor")))
+    rows.append(("C.object", body(csrc, r"\n(static\s+\w+\s+failureReporterForC\s*;)", "failureReporterForC")))
+    # the C++ reporter (src/CppUTestExt/MockFailure.cpp, include/CppUTestExt/MockFailure.h)
+    fsrc = h.src("src/CppUTestExt/MockFailure.cpp")
+    fhdr = h.src("include/CppUTestExt/MockFailure.h")
+    xt = re.search(r"class MockFailureReporterTestTerminator\b(.*?)\n\};", fsrc, re.S)
+    xtext = xt.group(0) if xt else ""
+    shape("X", body(fsrc, r"void MockFailureReporter::failTest\s*\([^)]*\)\s*\{([^{}]*)\}", "MockFailureReporter::failTest"),
+          body(xtext, r"\bexitCurrentTest\s*\(\s*\)\s*const\s*CPPUTEST_OVERRIDE\s*\{([^{}]*)\}", "C++ terminator exitCurrentTest"))
+    rows.append(("X.terminator.flag", body(xtext, r"MockFailureReporterTestTerminator\s*\(\s*bool\s+crashOnFailure\s*\)\s*:\s*([^{]*)\{", "C++ terminator constructor")))
+    rows.append(("X.crashOnFailure", body(fhdr, r"virtual\s+void\s+crashOnFailure\s*\(\s*bool\s+shouldCrash\s*\)\s*\{([^{}]*)\}", "MockFailureReporter::crashOnFailure")))
+    out = ["(* src/CppUTestExt/MockSupport_c.cpp, src/CppUTestExt/MockFailure.cpp, include/CppUTestExt/MockFailure.h *)\n"
+           "Definition reporter_bodies : list (name * name) :=\n  [ %s ]." % ";\n    ".join("(%s, %s)" % (q(a), q(b)) for a, b in rows)]
+    # MockSupport and its activeReporter_ (src/CppUTestExt/MockSupport.cpp, include/CppUTestExt/MockSupport.h)
+    ssrc = h.src("src/CppUTestExt/MockSupport.cpp")
+    shdr = h.src("include/CppUTestExt/MockSupport.h")
+    rows = []
+    rows.append(("mock", body(ssrc, r"\nMockSupport& mock\([^)]*\)\s*\{(.*?)\n\}", "mock()")))
+    rows.append(("mock.default", body(shdr, r"MockSupport& mock\([^;]*MockFailureReporter\*\s*\w+\s*=\s*(\w+)\s*\)\s*;", "default reporter argument of mock()")))
+    rows.append(("setActiveReporter", body(ssrc, r"void MockSupport::setActiveReporter\([^)]*\)\s*\{([^{}]*)\}", "MockSupport::setActiveReporter")))
+    rows.append(("crashOnFailure", body(ssrc, r"void MockSupport::crashOnFailure\([^)]*\)\s*\{([^{}]*)\}", "MockSupport::crashOnFailure")))
+    rows.append(("failTest", body(ssrc, r"void MockSupport::failTest\([^)]*\)\s*\{([^{}]*)\}", "MockSupport::failTest")))
+    rows.append(("createActualCall.reporter", body(ssrc, r"new MockCheckedActualCall\(\s*[^,]*,\s*(\w+)\s*,", "reporter of a new actual call")))
+    # clear(): every identifier that has to do with a reporter (none: clear() leaves activeReporter_ / standardReporter_ alone)
+    cl = re.search(r"\nvoid MockSupport::clear\(\)\s*\{(.*?)\n\}", ssrc, re.S)
+    if not cl:
+        E.append("C19: MockSupport::clear not found")
+    rows.append(("clear.reporters", " ".join(sorted(set(re.findall(r"\b\w*[Rr]eporter\w*", squash(cl.group(1)) if cl else "?"))))))
+    cn = re.search(r"MockSupport\* MockSupport::clone\([^)]*\)\s*\{(.*?)\n\}", ssrc, re.S)
+    rows.append(("clone.reporters", " ".join(re.findall(r"newMock->(set\w*Reporter\([^)]*\));", squash(cn.group(1)) if cn else ""))))
+    ctor = re.search(r"MockSupport::MockSupport\([^)]*\)\s*:(.*?)\{", ssrc, re.S)
+    rows.append(("constructor.reporters", " ".join(re.findall(r"\b\w*Reporter_\([^)]*\)", squash(ctor.group(1)) if ctor else ""))))
+    out.append("Definition support_reporter_facts : list (name * name) :=\n  [ %s ]." % ";\n    ".join("(%s, %s)" % (q(a), q(b)) for a, b in rows))
+    return out
 
 
 def generate(h):
@@ -308,5 +387,6 @@ def generate(h):
             n += 1
         if n < 12:
             E.append("C19: only %d ...OrDefault definitions of %s recognised" % (n, cls))
+    out += reporter_facts(h, src)
     out.append("(* src/CppUTestExt/MockSupport.cpp, src/CppUTestExt/MockActualCall.cpp *)\nDefinition cpp_or_default : list (name * name * name) :=\n  [ %s ]." % ";\n    ".join(rows))
     return "\n".join(out) + "\n"
